@@ -104,6 +104,34 @@ func TestVerifC28_Upload(t *testing.T) {
 			rt.Fatalf("HARNESS: %v", err)
 		}
 		hf, opts, optStr := c28UploadOpts(rt)
+		// the local meta.json may already carry a file list (a block directory produced from a
+		// downloaded block - downsampling, bucket rewrite - inherits the source's list): here with the
+		// hashes of the requested kind but sizes of other content
+		if rapid.IntRange(0, 2).Draw(rt, "inheritedFileList") == 0 {
+			m, err := metadata.ReadFromDir(b.Dir)
+			if err != nil {
+				rt.Fatalf("HARNESS: %v", err)
+			}
+			m.Thanos.Files = nil
+			for _, rel := range sortedKeys(b.Files) {
+				f := metadata.File{RelPath: rel, SizeBytes: b.Files[rel] + int64(rapid.IntRange(1, 9).Draw(rt, "sizeOff"))}
+				if hf != metadata.NoneFunc {
+					f.Hash = &metadata.ObjectHash{Func: hf, Value: "00"}
+				}
+				m.Thanos.Files = append(m.Thanos.Files, f)
+			}
+			if rapid.Bool().Draw(rt, "inheritedExtraSegment") {
+				extra := metadata.File{RelPath: "chunks/000099", SizeBytes: 5}
+				if hf != metadata.NoneFunc {
+					extra.Hash = &metadata.ObjectHash{Func: hf, Value: "00"}
+				}
+				m.Thanos.Files = append(m.Thanos.Files, extra)
+			}
+			if err := m.WriteToDir(c28Logger, b.Dir); err != nil {
+				rt.Fatalf("HARNESS: %v", err)
+			}
+			optStr += " inherited-file-list"
+		}
 		initial := map[string][]byte{}
 		withOther := rapid.Bool().Draw(rt, "otherBlockPresent")
 		if withOther {
